@@ -140,9 +140,10 @@ Definition ren_le (a b : aren) : bool :=
 Fixpoint ins_ren (r : aren) (l : list aren) : list aren :=
   match l with
   | [] => [r]
-  | x :: l' => if ren_le x r then x :: ins_ren r l' else r :: l
+  | x :: l' => if negb (ren_le r x) then x :: ins_ren r l' else r :: l
   end.
-(* stable insertion sort: fold from the right so equal keys keep their order *)
+(* stable insertion sort: elements are inserted from the right, and an element goes in front of
+   everything that is not strictly smaller, so equal keys keep their plan order *)
 Definition sort_renames (l : list aren) : list aren := fold_right ins_ren [] l.
 
 (* the re-basing loop: every earlier (orig_from, adjusted_to) pair is tried in order, the last
@@ -162,20 +163,22 @@ Definition rename_ops (from to : path) : list mop :=
   (if case_only from to then [MCreate (parent from ++ [probe_name]); MUnlink (parent from ++ [probe_name])] else [])
   ++ [MRename from to].
 
-Fixpoint rename_stage (inj : inj_t) (rs : list aren) (performed : list (path * path)) (s : st)
-  : (st * list (path * path)) + (failure * st * list (path * path)) :=
+(* [performed] = (original_from, adjusted_to) pairs used for re-basing and for the history entry;
+   [executed] = (adjusted_from, adjusted_to) pairs as executed, used by rollback *)
+Fixpoint rename_stage (inj : inj_t) (rs : list aren) (performed executed : list (path * path)) (s : st)
+  : (st * list (path * path) * list (path * path)) + (failure * st * list (path * path) * list (path * path)) :=
   match rs with
-  | [] => inl (s, performed)
+  | [] => inl (s, performed, executed)
   | r :: rs' =>
       let from := adjust performed (ar_path r) in
       let to := adjust performed (ar_new r) in
       match do_ops inj (rename_ops from to) s with
-      | inl s' => rename_stage inj rs' (performed ++ [(ar_path r, to)]) s'
-      | inr (f, s') => inr (f, s', performed)
+      | inl s' => rename_stage inj rs' (performed ++ [(ar_path r, to)]) (executed ++ [(from, to)]) s'
+      | inr (f, s') => inr (f, s', performed, executed)
       end
   end.
 
-(* rollback: revert renames in reverse order, errors are collected, not fatal for the loop *)
+(* rollback: revert the executed renames in reverse order, errors are collected, not fatal *)
 Fixpoint rollback (inj : inj_t) (rev_performed : list (path * path)) (s : st) : st :=
   match rev_performed with
   | [] => s
@@ -210,11 +213,11 @@ Definition apply_core (inj : inj_t) (p : aplan) (t : fs) : result :=
       (* rollback(&mut state): nothing has been renamed yet *)
       {| r_fs := s_fs s; r_ok := false; r_fail := Some f; r_trace := rev (s_trace s); r_performed := [] |}
   | inl s1 =>
-      match rename_stage inj (sort_renames (ap_renames p)) [] s1 with
-      | inl (s2, perf) =>
+      match rename_stage inj (sort_renames (ap_renames p)) [] [] s1 with
+      | inl (s2, perf, _) =>
           {| r_fs := s_fs s2; r_ok := true; r_fail := None; r_trace := rev (s_trace s2); r_performed := perf |}
-      | inr (f, s2, perf) =>
-          let s3 := rollback inj (rev perf) s2 in
+      | inr (f, s2, perf, exe) =>
+          let s3 := rollback inj (rev exe) s2 in
           {| r_fs := s_fs s3; r_ok := false; r_fail := Some f; r_trace := rev (s_trace s3); r_performed := perf |}
       end
   end
